@@ -10,6 +10,7 @@ pub fn run<F: Future>(f: F) -> F::Output {
         .expect("runtime");
     let out = rt.block_on(f);
     drop(rt);
+    crate::mc::check_subject_panic();
     out
 }
 
@@ -18,4 +19,6 @@ pub async fn settle() {
     for _ in 0..6 {
         tokio::task::yield_now().await;
     }
+    // a spawned task of the crate under test that panicked meanwhile ends this execution
+    crate::mc::check_subject_panic();
 }
